@@ -42,7 +42,7 @@ def correspondence(ctx, model_ok=True):
     rng = ctx.rng.fork("c01")
     failures = []
     broken = []
-    n_gen = 2000 if ctx.thorough else 800
+    n_gen = 6000 if ctx.thorough else 800
     gen = progs.generated(rng, PROFILES, n_gen)
     probes = probes_gc.all_probes()
     scripts = progs.corpus_scripts()
@@ -76,7 +76,7 @@ def correspondence(ctx, model_ok=True):
             tags[t] = tags.get(t, 0) + 1
 
     # (b) real collections through the Lean collector, (a) traced-edge log vs schema
-    n_dump_progs = 300 if ctx.thorough else 40
+    n_dump_progs = 900 if ctx.thorough else 40
     dump_progs = [(n, s, m) for n, s, m in probes][:n_dump_progs // 2] + [(n, s, m) for n, s, m, _ in gen[:n_dump_progs // 2]]
     dres, _ = progs.run_programs(ctx.runner, dump_progs, {"gc": "always", "dumpgc": 6 if ctx.thorough else 3}, tag="d")
     mlines = []
